@@ -769,39 +769,45 @@ theorem itemsP_al (largs eargs : List (List HTok)) (args' : List (List PTok)) (m
 /-- every item `replaceParams` makes is a token of the replacement list (empty hide set) or comes out of an
 argument whose names are disabled -/
 theorem itemsP_good (env : List Entry) (largs eargs : List (List HTok)) (mb : List PTok)
-    (hl : ∀ a ∈ largs, ∀ s ∈ a, GoodItem env (.tok s)) (he : ∀ a ∈ eargs, ∀ s ∈ a, GoodItem env (.tok s)) :
-    ∀ (prev : Option Tok), ∀ it ∈ itemsP largs eargs prev mb, it = .paste ∨ GoodItem env it := by
+    (he : ∀ a ∈ eargs, ∀ s ∈ a, GoodItem env (.tok s)) :
+    ∀ (prev : Option Tok), (∀ i, i ∈ pasteParams prev mb → ∀ s ∈ largs.getD i [], GoodItem env (.tok s)) →
+    ∀ it ∈ itemsP largs eargs prev mb, it = .paste ∨ GoodItem env it := by
   induction mb with
-  | nil => intro prev it hit; simp [itemsP] at hit
+  | nil => intro prev _ it hit; simp [itemsP] at hit
   | cons t r ih =>
-    intro prev it hit
+    intro prev hl it hit
+    have hl' : ∀ i, i ∈ pasteParams (nextPrev prev t) r → ∀ s ∈ largs.getD i [], GoodItem env (.tok s) :=
+      fun i hi => hl i (pasteParams_tail prev t r i hi)
     unfold itemsP at hit
     split at hit
-    · exact ih _ it hit
-    · split at hit
+    · rename_i hw
+      exact ih prev (by simpa [nextPrev, hw] using hl') it hit
+    · rename_i hw
+      have hl'' : ∀ i, i ∈ pasteParams (some t.tok) r → ∀ s ∈ largs.getD i [], GoodItem env (.tok s) := by
+        simpa [nextPrev, hw] using hl'
+      split at hit
       · rcases List.mem_cons.mp hit with rfl | hit
         · exact Or.inl rfl
-        · exact ih _ it hit
-      · rename_i i _
+        · exact ih _ hl'' it hit
+      · rename_i i hti
         rcases List.mem_append.mp hit with hm | hm
         · right
           obtain ⟨s, hs, rfl⟩ := List.mem_map.mp hm
           split at hs
-          · cases hg : largs[i]? with
-            | none => simp [List.getD, hg] at hs
-            | some a =>
-              simp only [List.getD, hg, Option.getD_some] at hs
-              exact hl a (List.mem_of_getElem? hg) s hs
+          · rename_i hadj
+            exact hl i (by
+              rw [pasteParams]
+              simp only [hti, hadj, if_true]
+              exact List.mem_cons_self) s hs
           · cases hg : eargs[i]? with
             | none => simp [List.getD, hg] at hs
             | some a =>
               simp only [List.getD, hg, Option.getD_some] at hs
               exact he a (List.mem_of_getElem? hg) s hs
-        · exact ih _ it hm
+        · exact ih _ hl'' it hm
       · rcases List.mem_cons.mp hit with rfl | hit
         · exact Or.inr (Or.inl rfl)
-        · exact ih _ it hit
-
+        · exact ih _ hl'' it hit
 
 /-- **`subst` on a replacement list with `##`**: the result spells the paste normal form of the replacement list as
 the model substituted it; every token of it is a token of the replacement list (hide set = the new hide set) or names
@@ -816,13 +822,14 @@ theorem subst_paste (ex : List HTok → Except SErr (List HTok)) (env' : List En
     (hncargs : ∀ (i : Nat) (a' : List PTok), args'[i]? = some a' → NoConcat a')
     (hexp : ∀ t ∈ m.body, ∀ i, t.tok = .arg i → (eargs.getD i []).map (·.tok) = ppTokens (args'.getD i []))
     (hraw : ∀ i, i ∈ pasteParams none m.body → (largs.getD i []).map (·.tok) = ppTokens (args'.getD i []))
-    (hgl : ∀ a ∈ largs, ∀ s ∈ a, GoodItem env' (.tok s)) (hge : ∀ a ∈ eargs, ∀ s ∈ a, GoodItem env' (.tok s))
+    (hgl : ∀ i, i ∈ pasteParams none m.body → ∀ s ∈ largs.getD i [], GoodItem env' (.tok s))
+    (hge : ∀ a ∈ eargs, ∀ s ∈ a, GoodItem env' (.tok s))
     (hpn : PN env' body' ks) :
     ∃ out : List HTok, subst ex (ofMacro m) largs hsNew = .ok (out.map (fun s => ⟨s.tok, s.hide ++ hsNew⟩)) ∧
       out.map (·.tok) = ks ∧ ∀ s ∈ out, GoodItem env' (.tok s) := by
   have hrp := replaceParams_paste ex np largs eargs hex m.body none hbody (by simp) hne
   have hal := itemsP_al largs eargs args' m.body none body' hsub hncargs hexp hraw
-  obtain ⟨out, hdp, hks, hgood⟩ := doPastes_pn hpn _ hal (itemsP_good env' largs eargs m.body hgl hge none) []
+  obtain ⟨out, hdp, hks, hgood⟩ := doPastes_pn hpn _ hal (itemsP_good env' largs eargs m.body hge none hgl) []
   refine ⟨out, ?_, hks, hgood⟩
   unfold subst
   rw [hparams]
@@ -833,6 +840,99 @@ theorem subst_paste (ex : List HTok → Except SErr (List HTok)) (env' : List En
   simp only
   rw [hdp]
   simp [List.filterMap_map, Function.comp_def]
+
+
+/-! ## splitting the paste normal form at an argument list -/
+
+theorem firstTok_mem {l : List PTok} {k : Tok} (h : firstTok l = some k) : ∃ t ∈ l, t.tok = k := by
+  induction l with
+  | nil => simp [firstTok] at h
+  | cons x r ih =>
+    unfold firstTok at h
+    split at h
+    · obtain ⟨t, ht, htk⟩ := ih h; exact ⟨t, by simp [ht], htk⟩
+    · simp only [Option.some.injEq] at h; exact ⟨x, by simp, h⟩
+
+theorem firstTok_append_of_some (A B : List PTok) (k : Tok) (h : firstTok A = some k) : firstTok (A ++ B) = some k := by
+  induction A with
+  | nil => simp [firstTok] at h
+  | cons t r ih =>
+    by_cases hw : t.tok.isWhitespace = true
+    · simp only [firstTok, hw, if_true] at h
+      simp only [List.cons_append, firstTok, hw, if_true]
+      exact ih h
+    · simp only [firstTok, hw] at h
+      simp only [List.cons_append, firstTok, hw]
+      exact h
+
+theorem firstTok_snoc_nonws (init : List PTok) (x : PTok) (hx : x.tok.isWhitespace = false) :
+    ∃ k, firstTok (init ++ [x]) = some k := by
+  induction init with
+  | nil => exact ⟨x.tok, by simp [firstTok, hx]⟩
+  | cons t r ih =>
+    by_cases hw : t.tok.isWhitespace = true
+    · obtain ⟨k, hk⟩ := ih
+      exact ⟨k, by simp only [List.cons_append, firstTok, hw, if_true]; exact hk⟩
+    · exact ⟨t.tok, by simp [firstTok, hw]⟩
+
+/-- the paste normal form of `A ++ B` when `A` has no `##` and ends in `)` -/
+theorem pn_split (env : List Entry) (init B : List PTok) (b : Bool) (ks : List Tok)
+    (hnc : NoConcat init) (h : PN env ((init ++ [⟨.rparen, b⟩]) ++ B) ks) :
+    ∃ ks', ks = ppTokens (init ++ [⟨.rparen, b⟩]) ++ ks' ∧ PN env B ks' := by
+  induction init generalizing ks with
+  | nil =>
+    simp only [List.nil_append, List.cons_append] at h
+    cases h with
+    | ws _ _ _ hw _ => cases hw
+    | tok _ _ _ _ _ _ h' => exact ⟨_, rfl, h'⟩
+    | paste _ t2 m _ rest2 _ _ _ hp _ _ =>
+      obtain ⟨⟨a, ha⟩, _, _, _⟩ := pasteTokens_ok_shape _ _ _ hp
+      rcases ha with ha | ha | ha <;> cases ha
+  | cons t r ih =>
+    have hr : NoConcat r := fun x hx => hnc x (by simp [hx])
+    simp only [List.cons_append] at h
+    cases h with
+    | ws _ _ _ hw h' =>
+      obtain ⟨ks', h1, h2⟩ := ih _ hr (by simpa using h')
+      refine ⟨ks', ?_, h2⟩
+      rw [List.cons_append, ppTokens_cons_ws t _ hw]; exact h1
+    | tok _ _ ks1 hw _ _ h' =>
+      obtain ⟨ks', h1, h2⟩ := ih _ hr (by simpa using h')
+      refine ⟨ks', ?_, h2⟩
+      rw [List.cons_append, ppTokens_cons t _ hw, h1]; rfl
+    | paste _ t2 m _ rest2 _ _ hs _ _ _ =>
+      exfalso
+      have hf := firstTok_of_splitPaste _ _ _ hs
+      obtain ⟨k, hk⟩ := firstTok_snoc_nonws r ⟨.rparen, b⟩ rfl
+      have hk2 := firstTok_append_of_some (r ++ [⟨.rparen, b⟩]) B k hk
+      simp only [List.append_assoc] at hk2 hf
+      rw [hk2] at hf
+      obtain ⟨x, hx, hxk⟩ := firstTok_mem hk
+      have hkc : k = .concat := by simpa using hf
+      rcases List.mem_append.mp hx with hm | hm
+      · exact hr x hm (by rw [hxk, hkc])
+      · simp only [List.mem_singleton] at hm
+        subst hm
+        rw [hkc] at hxk; cases hxk
+
+/-- a paste normal form that starts with `(`: so does the list -/
+theorem pn_head_lparen {env : List Entry} {l : List PTok} {ks : List Tok} (h : PN env l ks) :
+    ∀ ks', ks = Tok.lparen :: ks' → firstTok l = some .lparen := by
+  induction h with
+  | nil => intro ks' hh; cases hh
+  | ws t rest ks hw _ ih => intro ks' hh; simp only [firstTok, hw, if_true]; exact ih ks' hh
+  | tok t rest ks hw _ _ _ _ =>
+    intro ks' hh
+    simp only [List.cons.injEq] at hh
+    simp only [firstTok, hh.1]
+    rfl
+  | paste t1 t2 m rest rest2 ks hw _ hp _ _ ih =>
+    intro ks' hh
+    have := ih ks' hh
+    obtain ⟨_, _, _, ⟨x, hx⟩⟩ := pasteTokens_ok_shape _ _ _ hp
+    have hmw : m.tok.isWhitespace = false := by rcases hx with hx | hx | hx <;> simp [hx, Tok.isWhitespace]
+    simp only [firstTok, hmw, Bool.false_eq_true, if_false, Option.some.injEq] at this
+    rcases hx with hx | hx | hx <;> rw [hx] at this <;> cases this
 
 
 end RsslVerif.Lemmas.MacroTamePSpec
